@@ -13,7 +13,11 @@ Tie (this file): history fuzzing.
   that call, computed in a separate reference worker process that restores every module-level
   container of uxarray.conventions.* / uxarray.constants before every evaluation (snapshot taken
   right after import); in the thorough tier a sample is recomputed in truly fresh interpreters.
-* random read-only histories (every lazily derived attribute of docs/api.rst, compute_face_areas
+* witness histories of the snapshot's defects (Lean `asis_*`), chunk→X, ordered pairs, SATURATION
+  histories (read everything, read everything again, export: catches in-place rewrites of stored
+  variables), argument CROSS-TALK histories (every exporter/tree/area call with arguments followed by
+  the getter of every cell it could leave something in), then
+  random read-only histories (every lazily derived attribute of docs/api.rst, compute_face_areas
   variants, tree getters, exporters, chunk, isel, subset.*, get_dual, copy, cross sections …)
   interleaved over 1..3 grids; EVERY step is an observation and is compared with the reference
   (arrays exactly: dtype, shape, bytes; trees by their answers to a fixed query battery; geometry by
@@ -24,7 +28,8 @@ Tie (this file): history fuzzing.
 * the Lean model (`C08.model`) predicts, for the same history, which variables each grid's store
   holds after every step and which are dask-backed; compared with `Grid._ds`.
 * JIT off: a second worker with numba disabled replays histories; its observations are compared
-  with the JIT-on references (floats to 1e-9 relative — IEEE contraction differs, not history).
+  with the JIT-on references (floats to 1e-5 relative / 1e-8 absolute: the compiled and the interpreted
+  kernels round differently and arccos near 1 amplifies it — rounding, not history).
 """
 
 from __future__ import annotations
@@ -243,7 +248,7 @@ def digest(c):
     return _sha(json.dumps(strip(c), sort_keys=True).encode())
 
 
-def close(a, b, rtol=1e-9, atol=1e-12):
+def close(a, b, rtol=1e-5, atol=1e-8):
     """structural equality with a float tolerance on arrays that carry their data"""
     if type(a) is not type(b):
         return False
@@ -257,8 +262,8 @@ def close(a, b, rtol=1e-9, atol=1e-12):
                 return False
             x = np.array([float.fromhex(v) for v in a[5]])
             y = np.array([float.fromhex(v) for v in b[5]])
-            if a[1] != "float64":  # single precision results: a few units in the last place
-                rtol, atol = max(rtol, 1e-5), max(atol, 1e-6)
+            if a[1] != "float64":  # single precision results
+                rtol, atol = max(rtol, 1e-4), max(atol, 1e-6)
             return bool(np.allclose(x, y, rtol=rtol, atol=atol, equal_nan=True))
         if a and a[0] == "float" and b and b[0] == "float":
             x, y = float.fromhex(a[1]), float.fromhex(b[1])
@@ -953,7 +958,25 @@ class Judge:
     def shrink(self, specs, hist, i, what="value"):
         """greedy: drop earlier steps / unused grids while step i (kept last) still fails"""
         hist = list(hist[: i + 1])
-        budget = 24
+        budget = 24 if len(hist) <= 12 else 10
+        if len(hist) > 12:
+            # long (saturation) histories: first try the two-step history [culprit candidate, observation]
+            for j in range(len(hist) - 2, -1, -1):
+                if budget <= 0:
+                    break
+                cand = [hist[j], hist[-1]]
+                budget -= 1
+                try:
+                    res = self.S.run_history(specs, cand)
+                except Exception:
+                    continue
+                gi, op = cand[-1]
+                st = res["steps"][-1]
+                still = bool(st["globals_changed"]) if what == "globals" else self.step_differs(specs[gi], op, st["obs"])
+                if still:
+                    hist = cand
+                    break
+            budget = 6
         changed = True
         while changed and budget > 0:
             changed = False
@@ -1070,7 +1093,8 @@ class Judge:
             except Exception as e:  # pragma: no cover
                 ctx.notes.append("shrink failed: %r" % (e,))
         pre = [op_class(o) for _, o in mhist[:-1]]
-        after = pre[-1] if pre else "fresh"
+        # coarse culprit family (the replay carries the exact minimised history)
+        after = ("chunk" if "chunk" in pre else pre[-1].split(":")[0]) if pre else "fresh"
         cls = op_class(op)
         obs = st["obs"]
         if what == "globals":
@@ -1090,7 +1114,7 @@ class Judge:
             elif op[0] in EXPORT_OPS:
                 sig = f"C08/export/{cls}/{detail}"
             elif what in ("export", "inventory"):
-                sig = f"C08/{what}/{cls}/not-a-superset-of-fresh/after={after}"
+                sig = f"C08/{'to_xarray' if what == 'export' else what}-superset/{cls}/not-a-superset-of-fresh/after={after}"
             else:
                 sig = f"C08/history/{cls}/{detail}/after={after}"
             where = first_diff(strip(obs), strip(ref)) if detail == "value-differs" else None
@@ -1224,6 +1248,7 @@ def ops_for(spec, info=None):
     for name in EXPORT_OPS:
         ops.append([name, {"pe": "exclude", "proj": "robinson"}])
         ops.append([name, {"pe": "exclude", "proj": "ortho"}])
+        ops.append([name, {"pe": "ignore", "proj": "platecarree180"}])
         ops.append([name, {"pe": "exclude", "cache": False}])
         ops.append([name, {"pe": "exclude", "override": True}])
     ops.append(["gdf", {"pe": "exclude", "engine": "geopandas"}])
@@ -1271,6 +1296,33 @@ def witness_histories():
     ]
 
 
+def saturation_history(rng, ops):
+    """read every attribute once (random order), then everything again, then the exports: any
+    population path that rewrites a stored variable in place shows up in the second round"""
+    getters = [o for o in ops if o[0] == "get" and o[1]["attr"] in VARS]
+    first = list(getters)
+    rng.shuffle(first)
+    second = list(getters)
+    rng.shuffle(second)
+    tail = [["to_xarray", {"fmt": "ugrid"}], ["get", {"attr": "sizes"}], ["get", {"attr": "connectivity"}],
+            ["to_xarray", {"fmt": "exodus"}]]
+    return [(0, o) for o in first + second + tail]
+
+
+def crosstalk_histories(rng, ops):
+    """every call that takes arguments (exporters with projections, trees, area rules) followed by
+    each getter of a cell that such calls could leave something in"""
+    cells = ["antimeridian_face_indices", "face_jacobian", "face_areas", "edge_lon", "node_lon", "face_lon", "bounds"]
+    withargs = [o for o in ops if o[0] in EXPORT_OPS + ("areas", "ball", "kd", "total_area") and
+                (o[0] not in EXPORT_OPS or o[1].get("proj") or o[1].get("pe") != "exclude" or o[1].get("engine"))]
+    out = []
+    for a in withargs:
+        projected = a[0] in EXPORT_OPS and a[1].get("proj")
+        for c in (cells if projected else rng.sample(cells, 3)):
+            out.append([(0, a), (0, ["get", {"attr": c}])])
+    return out
+
+
 def random_history(rng, srcs, OPS, maxlen=8):
     k = rng.choice([1, 1, 2, 2, 3])
     specs = [rng.choice(srcs) for _ in range(k)]
@@ -1308,10 +1360,12 @@ def run(ctx):
                 "the snapshot's defects first, then chunk->X and ordered pairs (systematic in thorough), then random histories; "
                 "every step compared with the fresh-copy reference computed in a separate worker process; distinct = distinct "
                 "(sources, history); non-trivial = more than one operation")
+    phase = {}
+    ctx.extra["phase_seconds"] = phase
     ctx.assumptions = [
         "values are compared through digests of dtype/shape/bytes (arrays), query batteries (trees), coordinates (geometry)",
         "that each public method reads only what the Lean table says is validated by comparing Grid._ds with the model's store after every step, not proved",
-        "JIT on/off equality and dask semantics are exercised, not proved; JIT-off observations may differ from JIT-on references by float rounding (1e-9 relative)",
+        "JIT on/off equality and dask semantics are exercised, not proved; JIT-off observations may differ from JIT-on references by float rounding (1e-5 relative / 1e-8 absolute; arccos near 1 amplifies last-bit differences)",
         "isel / subset / get_dual / copy results are observed through a digest of the returned grid's fundamental and a few derived variables",
         "inventory-type attributes (dims, sizes, coordinates, connectivity, descriptors) and to_xarray('ugrid') are judged by the superset rule of the property's export clause",
     ]
@@ -1331,6 +1385,7 @@ def run(ctx):
             if ctx.driver.ask("C08.wf", common.enc_ints(sg)) != "1":
                 ctx.mismatch("C08/source-signature-not-well-formed", dict(source=sp["name"], sig=[GROUPS[i] for i in sg]))
             ctx.hit("sig=" + "+".join(GROUPS[i] for i in sg if GROUPS[i] not in ("nodeLL", "faceNode"))[:60])
+        phase["setup"] = round(time.time() - t0, 1)
         # 1. witnesses of the snapshot's defects (corpus)
         for name, flags, specs, hist in witness_histories():
             for sp in specs:
@@ -1351,6 +1406,7 @@ def run(ctx):
                     ctx.notes.append("corpus %s: JIT-off worker failed: %s" % (f.name, str(e)[:200]))
             else:
                 J.history(specs, hist, "corpus:" + f.stem, shrink=False)
+        phase["witness+corpus"] = round(time.time() - t0, 1)
         # 2. chunk -> X and ordered pairs
         n_chunk, n_pairs = ctx.n(10, 10 ** 6), ctx.n(30, 0)
         sys_srcs = srcs if (ctx.thorough or ctx.escalate) else rng.sample(srcs, 5)
@@ -1372,6 +1428,14 @@ def run(ctx):
                         break
                     for b in ops:
                         J.history([sp], [(0, a), (0, b)], "all-pairs", shrink=False)
+        phase["chunk+pairs"] = round(time.time() - t0, 1)
+        # 2b. saturation (every source) and argument cross-talk (an antimeridian source + a seeded one)
+        for sp in srcs:
+            J.history([sp], saturation_history(rng, OPS[sp["name"]]), "saturation", shrink=True)
+        for sp in ([srcs[1], rng.choice(srcs)] if not (ctx.thorough or ctx.escalate) else srcs[:8]):
+            for h in crosstalk_histories(rng, OPS[sp["name"]]):
+                J.history([sp], h, "cross-talk")
+        phase["saturation+cross-talk"] = round(time.time() - t0, 1)
         # 3. random histories
         budget = 150 if not (ctx.thorough or ctx.escalate) else 800
         n_hist = ctx.n(150, 2500)
@@ -1381,9 +1445,11 @@ def run(ctx):
                 break
             specs, hist = random_history(rng, srcs, OPS, maxlen=8)
             J.history(specs, hist, "random")
+        phase["random"] = round(time.time() - t0, 1)
         ctx.extra["reference_values"] = len(W.cache)
         # 4. JIT off
         jit_pass(ctx, J, WJ, srcs, OPS, rng)
+        phase["jit-off"] = round(time.time() - t0, 1)
         # 5. references recomputed in truly fresh interpreters (thorough)
         if ctx.thorough or ctx.escalate:
             fresh_interpreters(ctx, W, rng)
@@ -1391,6 +1457,8 @@ def run(ctx):
         left = S.globals.changed()
         S.globals.restore()
         ctx.extra["globals_changed_when_run_ended"] = left
+        if os.environ.get("C08_TIMING"):
+            print("phase seconds:", phase, file=sys.stderr)
     finally:
         W.close()
         WJ.close()
